@@ -119,11 +119,11 @@ def isTypeInScope (n : String) : P Bool := fun s => .ok (isTypeInScopes s.scopes
 
 def pushScope : P Unit := modifyState fun s => { s with scopes := [] :: s.scopes }
 
-/-- `_pop_scope`: `assert len(self._scope_stack) > 1` -/
+/-- `_pop_scope`: pops unless only the file scope is left -/
 def popScope : P Unit := fun s =>
   match s.scopes with
   | _ :: b :: rest => .ok () { s with scopes := b :: rest }
-  | _ => .err (.crash .assertion "_pop_scope")
+  | _ => .ok () s
 
 def locOfCoord (c : Option Coord) : Loc :=
   match c with
@@ -170,7 +170,7 @@ def lexToken : P (Option PTok) := fun s =>
     else if k == "RBRACE" then
       match s.scopes with
       | _ :: b :: rest => .ok (some tok) { s with scopes := b :: rest }
-      | _ => .err (.crash .assertion "_pop_scope")
+      | _ => .ok (some tok) s
     else .ok (some tok) s
 
 /-- `_TokenStream._fill(n)` (at most `n` iterations are ever needed) -/
